@@ -27,6 +27,8 @@ EXPECT = {
     'c06_send_two_writes': ['C06', 'C01', 'C03'],
     'c07_late_result_else': ['C07', 'C08'],
     'c07b_enqueue_failure_drops_input': ['C07', 'C08'],
+    'c12c_context_children_remove_while_iterating': ['C12', 'C18'],
+    'c19b_dead_flag_set_by_frontend': ['C19', 'C04'],
 }
 # changes that are harmless on the current HEAD by construction (a later fix: commit made the trigger unreachable)
 NEUTRALISED = {
